@@ -57,6 +57,11 @@ LawEvent(e) ==
        THEN Check(e.gM = (IF e.exp = "B" THEN e.gB ELSE e.gA), "C13", "MoveThroughApi", l, [op |-> tr.op, k |-> tr.k, d |-> tr.d, route |-> e.route])
        ELSE TRUE
     \* the editor's overlay above layer k - 1 against the same cells as a real alpha layer inserted at k (gO = <<with overlay, with layer, k>>)
+    \* "inserting an empty alpha layer anywhere in the stack never changes any displayed cell" - also when the empty layer was made
+    \* the way a paste makes it (clipboard record of invisible cells)
+    /\ IF "gP" \in DOMAIN e
+       THEN Check(e.gP[1] = e.gA, "C13", "EmptyPasteInvisible", l, [k |-> e.gP[2]])
+       ELSE TRUE
     /\ IF "gO" \in DOMAIN e
        THEN Check(e.gO[1] = e.gO[2], "C13", "OverlayAsLayer", l, [k |-> e.gO[3]])
        ELSE TRUE
